@@ -107,6 +107,13 @@ CHECKS = {
          "is run on fb/npz/tfrec datasets with contiguous and interleaved metadata groups (flat and nested values) and must yield exactly the selected shards' examples.",
     note="Grouping key = equality of the metadata value. Once the shard list is fixed, delivery is C02. The ast extractor is trusted code.",
     ref="DESIGN.md §5 C12"),
+ "C17": dict(
+    technique="Lean 4 proof (for every path string the repaired validators accept, root/path normalises to root ++ components; everything outside is rejected; pinned-validator counterexample by decide) + grammar-generated strings through pathlib and the real validators, crafted hostile datasets with every file open recorded",
+    text="C17_validator_contains, C17_rejects_outside, C17_list_and_subdir_validators, C17_list_name, C17_reads_inside, C17_absolute_counterexample. M-PATH's parser/join/validators are compared with "
+         "pathlib, FileInfo, ShardsList, ShardListInfo and the filler guard on hundreds (thorough: thousands) of grammar strings; datasets whose shard / child-list / self paths point outside "
+         "the root (absolute, relative, via ..) are opened, checked, iterated and written: nothing outside may be opened or created.",
+    note="No symlinks inside the dataset directory; pathlib's parser is modelled (and compared). Native readers' opens are seen through their results (a recognisable example id) and the audit hook.",
+    ref="DESIGN.md §5 C17"),
 }
 
 def main():
